@@ -369,3 +369,106 @@ def direct_exprs(stmt):
     elif stmt['k'] == 'return' and stmt.get('e') is not None:
         out.extend(walk_expr(stmt['e']))
     return out
+
+
+SCALAR_TYPES = ('bool', 'char', 'signed char', 'unsigned char', 'short', 'unsigned short', 'int', 'unsigned int', 'long', 'unsigned long',
+                'long long', 'unsigned long long', 'float', 'double')
+
+
+def uninitialised_reads(model, f):
+    """Definite-assignment analysis over the CFG of f for its scalar / pointer / enum locals that are declared without an
+    initialiser: yields (variable declaration, reading event) for every read that some path from the declaration reaches
+    without passing an assignment.  Taking the address of the variable or binding it to a non-const reference parameter counts
+    as an assignment (out parameter); a compound assignment or ++ is a read."""
+    cands = {}
+    for st in walk_stmts(f['body']):
+        if st['k'] == 'decl':
+            for v in st['vars']:
+                t = (v.get('cty') or '').replace('const ', '')
+                if v.get('init') is None and not v.get('static_local') and not v.get('is_ref') and \
+                        (t in SCALAR_TYPES or t.endswith('*') or v.get('is_enum') or t.startswith('enum ')):
+                    cands[v['d']] = (v, st)
+    if not cands:
+        return []
+    g = model.cfg(f)
+    # classify the references
+    write_ref_ids, skip_ref_ids = {}, set()
+    for x in walk_all_exprs(f['body']):
+        if x.get('k') == 'assign' and x.get('op', '=') == '=':
+            l = strip_casts(x['l'])
+            if l is not None and l.get('k') == 'ref' and l.get('d') in cands:
+                write_ref_ids[id(l)] = x
+        if x.get('k') == 'un' and x.get('op') == '&':
+            l = strip_casts(x['e'])
+            if l is not None and l.get('k') == 'ref' and l.get('d') in cands:
+                write_ref_ids[id(l)] = x
+        if x.get('k') == 'call':
+            ptys = x.get('pty') or []
+            for i, a in enumerate(x.get('args', [])):
+                a0 = strip_casts(a)
+                if a0 is not None and a0.get('k') == 'ref' and a0.get('d') in cands and i < len(ptys) and '&' in ptys[i] and 'const' not in ptys[i]:
+                    write_ref_ids[id(a0)] = x
+    out = []
+    for d, (v, dst) in cands.items():
+        decl_nodes = [n for n in g.nodes if n.stmt is dst]
+        # events per node: ('w' | 'r', event)
+        acts = {}
+        for ev in g.events:
+            e = ev.e
+            if e.get('k') == 'ref' and e.get('d') == d:
+                if id(e) in write_ref_ids:
+                    continue        # the write takes effect at the enclosing assignment / call
+                acts.setdefault(ev.node.id, []).append(('r', ev))
+        # writes: the owning assignment / address-of / call event
+        for ev in g.events:
+            e = ev.e
+            is_w = False
+            if e.get('k') == 'assign' and e.get('op', '=') == '=':
+                l = strip_casts(e['l'])
+                is_w = l is not None and l.get('k') == 'ref' and l.get('d') == d
+            elif e.get('k') == 'un' and e.get('op') == '&':
+                l = strip_casts(e['e'])
+                is_w = l is not None and l.get('k') == 'ref' and l.get('d') == d
+            elif e.get('k') == 'call':
+                ptys = e.get('pty') or []
+                for i, a in enumerate(e.get('args', [])):
+                    a0 = strip_casts(a)
+                    if a0 is not None and a0.get('k') == 'ref' and a0.get('d') == d and i < len(ptys) and '&' in ptys[i] and 'const' not in ptys[i]:
+                        is_w = True
+            if is_w and not ev.conditional:
+                acts.setdefault(ev.node.id, []).append(('w', ev))
+        for nid in acts:
+            acts[nid].sort(key=lambda a: a[1].idx)
+        OUT = {n.id: True for n in g.nodes}
+        IN = {n.id: True for n in g.nodes}
+        changed = True
+        decl_ids = set(n.id for n in decl_nodes)
+        while changed:
+            changed = False
+            for n in g.nodes:
+                i = all(OUT[p.id] for p in n.pred) if n.pred else False
+                if n.id in decl_ids:
+                    i = False
+                o = i or any(k == 'w' for k, _ in acts.get(n.id, []))
+                if i != IN[n.id] or o != OUT[n.id]:
+                    IN[n.id], OUT[n.id] = i, o
+                    changed = True
+        # reachable from the declaration
+        reach = set()
+        work = list(decl_nodes)
+        while work:
+            n = work.pop()
+            for s2 in n.succ:
+                if s2.id not in reach:
+                    reach.add(s2.id)
+                    work.append(s2)
+        for nid, lst in acts.items():
+            if nid not in reach and nid not in decl_ids:
+                continue
+            state = IN[nid]
+            for k, ev in lst:
+                if k == 'w':
+                    state = True
+                elif not state:
+                    out.append((v, ev))
+    return out
